@@ -703,7 +703,11 @@ theorem evalUnitName_noPanic (ctx : Ctx) (hc : CtxOK ctx) : ∀ e : Expr, NoEmpt
       · exact noPanic_err _
       · apply noPanic_bind (evalUnitName_noPanic ctx hc l h'.1)
         intro lv _
-        exact noPanic_bind (pow_noPanic _ _) (fun _ _ => noPanic_ok _)
+        apply noPanic_bind (pow_noPanic _ _)
+        intro res _
+        split
+        · exact noPanic_unsupported _
+        · exact noPanic_ok _
     | shl | shr => simp only [evalUnitName]; exact noPanic_err _
     | and | or | xor =>
       simp only [evalUnitName]
